@@ -275,10 +275,16 @@ static void scalar_build_null_bitmap(const int16_t* def_levels, int64_t count,
         if (def_levels[base + 7] < max_def_level) null_bits |= 0x80;
         null_bitmap[b] = null_bits;
     }
-    for (int64_t j = full_bytes * 8; j < count; j++) {
-        if (def_levels[j] < max_def_level) {
-            null_bitmap[j / 8] |= (1 << (j % 8));
+    /* The last, partial byte is assigned (not OR-ed into whatever the buffer held), like every
+     * full byte above and like the SIMD variants */
+    if (full_bytes * 8 < count) {
+        uint8_t null_bits = 0;
+        for (int64_t j = full_bytes * 8; j < count; j++) {
+            if (def_levels[j] < max_def_level) {
+                null_bits |= (uint8_t)(1 << (j % 8));
+            }
         }
+        null_bitmap[full_bytes] = null_bits;
     }
 }
 
